@@ -442,9 +442,17 @@ def run_e2e(case, work):
     outp = os.path.join(work, "e2e_out.json")
     if os.path.exists(outp):
         os.remove(outp)
+    payload = evs
+    if case.get("torch"):
+        # a torch-profiler style input (TORCH dialect) whose thread ids are strings, as older profiler versions write
+        # them: ingestion works on hash(tid) and the export gives the string back
+        for e in evs:
+            e["tid"] = f"stream {e['tid']}"
+            e["cat"] = "cpu_op"
+        payload = {"deviceProperties": [{"id": 0, "name": "AIU", "type": "aiu"}], "traceEvents": evs}
     try:
         ace = Acelyzer(["-i", "api://jsonbuffer", "-o", outp, "-O", case["mode"].lower(), "-D", "0"],
-                       in_data=json.dumps(evs).encode())
+                       in_data=json.dumps(payload).encode())
         aiulog.loglevel = -1
         rc = ace.run()
         if rc != 0:
@@ -512,6 +520,9 @@ def gen_e2e_case(r):
     case = mk_case(mode, 5, True, r.choice([1.0, 0.5, 0.25]), evs)
     # host slices of a FLEX file that carry torch-profiler annotations: a later stage renames their lanes
     case["annot"] = r.random() < 0.25
+    # every eighth case: the same slices as a torch profile with string thread ids (oracle only, no Coq comparison:
+    # the lanes are hash values there)
+    case["torch"] = (not case["annot"]) and r.random() < 0.125
     return case
 
 
@@ -583,11 +594,13 @@ def run(ctx):
     e2e_cases = list(corpus_e2e)
     e2e_cases += [gen_e2e_case(r) for _ in range(ctx.pick(120, 2000))]
     work = tempfile.mkdtemp(prefix="c04_", dir=ctx.work)
-    e2e_terms, e2e_fail = [], []
+    e2e_terms, e2e_fail, tie_cases = [], [], []
     try:
         for case in e2e_cases:
             obs = run_e2e(case, work)
-            e2e_terms.append((coq_e2e_case(case), enc.V(obs["result"])))
+            if not case.get("torch"):
+                e2e_terms.append((coq_e2e_case(case), enc.V(obs["result"])))
+                tie_cases.append(case)
             fs = oracle_e2e(case, obs)
             if fs and len(e2e_fail) < 5:
                 e2e_fail += fs[:1]
@@ -598,7 +611,7 @@ def run(ctx):
         "C04_e2e", "From AiuModel Require Import Overlap.", "((mode * bool) * list ev)", "e2e_val", e2e_terms,
         prelude=E2E_PRELUDE, shard=500)
     mism += [{"name": "correspondence Overlap.run (host slices on lane (pid,1000)) vs Acelyzer end to end",
-              "case": dict(e2e_cases[j], e2e=True), "impl": e2e_terms[j][1][:600]} for j in bad2[:3]]
+              "case": dict(tie_cases[j], e2e=True), "impl": e2e_terms[j][1][:600]} for j in bad2[:3]]
     for f in e2e_fail:
         k = (f["signature"]["kind"], "e2e")
         if k not in kinds:
@@ -606,7 +619,7 @@ def run(ctx):
             picked.append(f)
     if bad2 and not picked:
         for j in bad2[:50]:
-            c = e2e_cases[j]
+            c = tie_cases[j]
             kc = mk_case(c["mode"], 5, True, c["scale"], [[True, 0, 1000, e[3], e[4], e[5]] for e in c["events"]])
             fs = failing(kc)
             if fs:
